@@ -60,6 +60,12 @@ type FuncContract struct {
 	ChanInvs []*Clause // channel invariants: `chan <local>: invariant <expr over elem>` (CallName = the channel variable)
 }
 
+type GuardDecl struct {
+	PkgPath, Type, Field, Lock string
+	File                        string
+	Line                        int
+}
+
 type GhostFn struct {
 	Name   string
 	Params []string // spec types
@@ -93,6 +99,7 @@ type Contracts struct {
 	Preds   map[string]*Pred
 	Lemmas  []*Lemma
 	Pure    []string // prefixes of FullName treated as pure
+	Guarded []GuardDecl // map-typed struct fields that may only be accessed while a mutex field of the same struct is held
 	Sinks   []string // callee key prefixes of formatting / logging sinks (C15 secret-flow obligations)
 	Secrets []string // type strings whose printed form is secret
 	Files   []string
@@ -480,6 +487,15 @@ func (cs *Contracts) parseLine(cur **FuncContract, t, path string, ln int, pkgPa
 		for _, f := range strings.Fields(rest) {
 			cs.Pure = append(cs.Pure, f)
 		}
+	case "guarded":
+		// guarded T.field by lockfield: the map in T.field is read only while T.lockfield is held (read or write) and
+		// written only while it is write-held; checked at every map operation on that field in functions under contract
+		f := strings.Fields(rest)
+		if len(f) != 3 || f[1] != "by" || !strings.Contains(f[0], ".") {
+			return errf("guarded T.field by lockfield")
+		}
+		i := strings.LastIndex(f[0], ".")
+		cs.Guarded = append(cs.Guarded, GuardDecl{PkgPath: pkgPath, Type: f[0][:i], Field: f[0][i+1:], Lock: f[2], File: path, Line: ln})
 	case "sink":
 		for _, f := range strings.Fields(rest) {
 			cs.Sinks = append(cs.Sinks, f)
